@@ -324,3 +324,278 @@ Proof.
   - unfold trace in H0. apply in_rev in H0. rewrite Forall_forall in L. apply (L _ H0).
   - intros c E. rewrite E in H. tauto.
 Qed.
+
+(* ====================================================================================================
+   2. FIFO: everything ever queued = everything dequeued so far ++ the queue (C05 fifo / each exactly once)
+   ==================================================================================================== *)
+(* chronological projections of a newest-first log *)
+Fixpoint enqs (l : list event) : list nat :=
+  match l with [] => [] | EEnq c _ _ :: t => enqs t ++ [c] | _ :: t => enqs t end.
+Fixpoint deqs (l : list event) : list nat :=
+  match l with [] => [] | EDeq c :: t => deqs t ++ [c] | _ :: t => deqs t end.
+
+Definition q_event (e : event) : Prop := match e with EEnq _ _ _ | EDeq _ => True | _ => False end.
+
+Definition fifo (s : st) : Prop := enqs (log s) = deqs (log s) ++ queue s.
+
+Lemma fifo_ev : forall s e, fifo s -> ~ q_event e -> fifo (ev s e).
+Proof. unfold fifo; intros s e F N; destruct e; cbn in *; auto; tauto. Qed.
+Lemma fifo_set_cs : forall s x, fifo s -> fifo (set_cs s x). Proof. auto. Qed.
+Lemma fifo_set_fs : forall s x, fifo s -> fifo (set_fs s x). Proof. auto. Qed.
+Lemma fifo_set_mainp : forall s x, fifo s -> fifo (set_mainp s x). Proof. auto. Qed.
+Lemma fifo_set_made : forall s x, fifo s -> fifo (set_made s x). Proof. auto. Qed.
+Lemma fifo_set_cur : forall s x, fifo s -> fifo (set_cur s x). Proof. auto. Qed.
+Lemma fifo_set_stack : forall s x, fifo s -> fifo (set_stack s x). Proof. auto. Qed.
+Lemma fifo_set_active : forall s x, fifo s -> fifo (set_active s x). Proof. auto. Qed.
+Lemma fifo_set_coro : forall s c x, fifo s -> fifo (set_coro s c x). Proof. auto. Qed.
+Lemma fifo_set_script : forall s c x, fifo s -> fifo (set_script s c x). Proof. auto. Qed.
+Lemma fifo_enq : forall s c b w, fifo s -> fifo (enq s c b w).
+Proof. unfold fifo; intros; cbn. rewrite H, app_assoc. reflexivity. Qed.
+Lemma fifo_enq_all : forall l s b w, fifo s -> fifo (enq_all s l b w).
+Proof. induction l; intros; cbn [enq_all]; auto using fifo_enq. Qed.
+Lemma fifo_run_c : forall s x, fifo s -> fifo (run_c s x).
+Proof. intros. unfold run_c. apply fifo_set_cur, fifo_ev; cbn; auto. Qed.
+Lemma fifo_deq : forall s x q, fifo s -> queue s = x :: q -> fifo (ev (set_queue s q) (EDeq x)).
+Proof. unfold fifo; intros s x q F Q; cbn. rewrite F, Q, <- app_assoc. reflexivity. Qed.
+Lemma fifo_set_started : forall s c b, fifo s -> fifo (set_started s c b).
+Proof. intros. apply fifo_ev; cbn; auto. Qed.
+Lemma fifo_bad : forall s me, fifo s -> fifo (bad s me).
+Proof. intros. apply fifo_ev; cbn; auto. Qed.
+Lemma fifo_make : forall s c, fifo s -> fifo (make s c).
+Proof. intros. apply fifo_ev; cbn; auto. Qed.
+Lemma fifo_ensure_made : forall s c, fifo s -> fifo (ensure_made s c).
+Proof. intros; unfold ensure_made. repeat break_match; auto using fifo_make. Qed.
+#[local] Hint Resolve fifo_set_cs fifo_set_fs fifo_set_mainp fifo_set_made fifo_set_cur fifo_set_stack fifo_set_active
+  fifo_set_coro fifo_set_script fifo_enq fifo_enq_all fifo_run_c fifo_set_started fifo_bad fifo_make fifo_ensure_made : core.
+
+Ltac fifo_ev_tac := repeat (apply fifo_ev; [|cbn; tauto]); auto.
+
+Lemma fifo_sp_dispose : forall s me hs aw, fifo s -> fifo (sp_dispose s me hs aw).
+Proof.
+  intros. unfold sp_dispose. destruct hs; auto. destruct aw.
+  - apply fifo_run_c, fifo_enq, fifo_enq_all. fifo_ev_tac.
+  - destruct (active s); auto.
+Qed.
+
+Lemma fifo_finish : forall s c r, fifo s -> fifo (finish s c r).
+Proof.
+  intros. unfold finish. destruct (bound (cs s c)); cbn [fst snd].
+  - apply fifo_set_cur. fifo_ev_tac.
+  - destruct (chain_of _).
+    + apply fifo_set_cur. fifo_ev_tac.
+    + apply fifo_run_c, fifo_enq_all. fifo_ev_tac.
+  - apply fifo_run_c, fifo_enq_all. fifo_ev_tac.
+Qed.
+#[local] Hint Resolve fifo_sp_dispose fifo_finish : core.
+
+Lemma fifo_exec : forall s me i, fifo s -> fifo (exec s me i).
+Proof.
+  intros s me i F. destruct i; cbn [exec].
+  - fifo_ev_tac.
+  - destruct (Nat.eqb me 0); auto.
+    assert (F1 : fifo (enq (ev s (ESusp me)) me me why_pause)) by (apply fifo_enq; fifo_ev_tac).
+    destruct (queue (enq (ev s (ESusp me)) me me why_pause)) as [|x q] eqn:Q; auto.
+    apply fifo_run_c. apply fifo_deq; auto.
+  - repeat break_match; auto.
+  - break_match; auto; fifo_ev_tac.
+  - break_match; auto.
+  - repeat break_match; auto; fifo_ev_tac.
+  - repeat break_match; auto; try (apply fifo_sp_dispose); fifo_ev_tac.
+  - repeat break_match; auto. apply fifo_run_c. fifo_ev_tac.
+  - break_match; auto.
+  - repeat break_match; auto; try (apply fifo_sp_dispose); fifo_ev_tac.
+  - repeat break_match; auto; try apply fifo_set_cur; fifo_ev_tac.
+  - break_match; auto.
+  - break_match; auto.
+  - repeat break_match; auto; fifo_ev_tac.
+  - fifo_ev_tac.
+  - auto.
+Qed.
+
+Lemma fifo_step : forall s, fifo s -> fifo (step s).
+Proof.
+  intros s F. unfold step. destruct (cur s).
+  - destruct (mainp s); [apply fifo_set_cur; fifo_ev_tac|].
+    unfold idle_if_main. break_match; auto using fifo_exec. apply fifo_ev; [apply fifo_exec; auto|cbn; tauto].
+  - destruct (script (cs s c)); auto using fifo_exec.
+  - unfold step_ret. destruct (stack s) as [|[hs|r] rest]; auto.
+    + destruct hs as [|h hs]; [|apply fifo_run_c; auto]. destruct (queue s) eqn:Q.
+      * apply fifo_ev; [|cbn; tauto]. apply fifo_set_cur, fifo_set_stack, fifo_set_active. exact F.
+      * apply fifo_run_c. apply fifo_deq; auto.
+  - exact F.
+Qed.
+
+(* C05 fifo: at every moment of every run the ready queue holds exactly the queued-but-not-yet-dequeued coroutines,
+   in queueing order; hence the dequeue order is a prefix of the enqueue order *)
+Theorem fifo_reach : forall p m n, let s := steps n (init p m) in enqs (log s) = deqs (log s) ++ queue s.
+Proof. intros. apply (inv_steps fifo fifo_step). reflexivity. Qed.
+
+
+(* ====================================================================================================
+   3. The log only grows (needed to speak about "the events after this point")
+   ==================================================================================================== *)
+Section Ext.
+Variable s0 : st.
+Definition ext (s : st) : Prop := exists evs, log s = evs ++ log s0.
+Lemma ext_ev : forall s e, ext s -> ~ q_event e -> ext (ev s e).
+Proof. intros s e (l&F) _. exists (e :: l). cbn. rewrite F. reflexivity. Qed.
+Lemma ext_set_cs : forall s x, ext s -> ext (set_cs s x). Proof. auto. Qed.
+Lemma ext_set_fs : forall s x, ext s -> ext (set_fs s x). Proof. auto. Qed.
+Lemma ext_set_mainp : forall s x, ext s -> ext (set_mainp s x). Proof. auto. Qed.
+Lemma ext_set_made : forall s x, ext s -> ext (set_made s x). Proof. auto. Qed.
+Lemma ext_set_cur : forall s x, ext s -> ext (set_cur s x). Proof. auto. Qed.
+Lemma ext_set_stack : forall s x, ext s -> ext (set_stack s x). Proof. auto. Qed.
+Lemma ext_set_active : forall s x, ext s -> ext (set_active s x). Proof. auto. Qed.
+Lemma ext_set_coro : forall s c x, ext s -> ext (set_coro s c x). Proof. auto. Qed.
+Lemma ext_set_script : forall s c x, ext s -> ext (set_script s c x). Proof. auto. Qed.
+Lemma ext_enq : forall s c b w, ext s -> ext (enq s c b w).
+Proof. intros s c b w (l&F). exists (EEnq c b w :: l). cbn. rewrite F. reflexivity. Qed.
+Lemma ext_enq_all : forall l s b w, ext s -> ext (enq_all s l b w).
+Proof. induction l; intros; cbn [enq_all]; auto using ext_enq. Qed.
+Lemma ext_run_c : forall s x, ext s -> ext (run_c s x).
+Proof. intros. unfold run_c. apply ext_set_cur, ext_ev; cbn; auto. Qed.
+Lemma ext_deq : forall s x q, ext s -> queue s = x :: q -> ext (ev (set_queue s q) (EDeq x)).
+Proof. intros s x q (l&F) _. exists (EDeq x :: l). cbn. rewrite F. reflexivity. Qed.
+Lemma ext_set_started : forall s c b, ext s -> ext (set_started s c b).
+Proof. intros. apply ext_ev; cbn; auto. Qed.
+Lemma ext_bad : forall s me, ext s -> ext (bad s me).
+Proof. intros. apply ext_ev; cbn; auto. Qed.
+Lemma ext_make : forall s c, ext s -> ext (make s c).
+Proof. intros. apply ext_ev; cbn; auto. Qed.
+Lemma ext_ensure_made : forall s c, ext s -> ext (ensure_made s c).
+Proof. intros; unfold ensure_made. repeat break_match; auto using ext_make. Qed.
+#[local] Hint Resolve ext_set_cs ext_set_fs ext_set_mainp ext_set_made ext_set_cur ext_set_stack ext_set_active
+  ext_set_coro ext_set_script ext_enq ext_enq_all ext_run_c ext_set_started ext_bad ext_make ext_ensure_made : core.
+
+Ltac ext_ev_tac := repeat (apply ext_ev; [|cbn; tauto]); auto.
+
+Lemma ext_sp_dispose : forall s me hs aw, ext s -> ext (sp_dispose s me hs aw).
+Proof.
+  intros. unfold sp_dispose. destruct hs; auto. destruct aw.
+  - apply ext_run_c, ext_enq, ext_enq_all. ext_ev_tac.
+  - destruct (active s); auto.
+Qed.
+
+Lemma ext_finish : forall s c r, ext s -> ext (finish s c r).
+Proof.
+  intros. unfold finish. destruct (bound (cs s c)); cbn [fst snd].
+  - apply ext_set_cur. ext_ev_tac.
+  - destruct (chain_of _).
+    + apply ext_set_cur. ext_ev_tac.
+    + apply ext_run_c, ext_enq_all. ext_ev_tac.
+  - apply ext_run_c, ext_enq_all. ext_ev_tac.
+Qed.
+#[local] Hint Resolve ext_sp_dispose ext_finish : core.
+
+Lemma ext_exec : forall s me i, ext s -> ext (exec s me i).
+Proof.
+  intros s me i F. destruct i; cbn [exec].
+  - ext_ev_tac.
+  - destruct (Nat.eqb me 0); auto.
+    assert (F1 : ext (enq (ev s (ESusp me)) me me why_pause)) by (apply ext_enq; ext_ev_tac).
+    destruct (queue (enq (ev s (ESusp me)) me me why_pause)) as [|x q] eqn:Q; auto.
+    apply ext_run_c. apply ext_deq; auto.
+  - repeat break_match; auto.
+  - break_match; auto; ext_ev_tac.
+  - break_match; auto.
+  - repeat break_match; auto; ext_ev_tac.
+  - repeat break_match; auto; try (apply ext_sp_dispose); ext_ev_tac.
+  - repeat break_match; auto. apply ext_run_c. ext_ev_tac.
+  - break_match; auto.
+  - repeat break_match; auto; try (apply ext_sp_dispose); ext_ev_tac.
+  - repeat break_match; auto; try apply ext_set_cur; ext_ev_tac.
+  - break_match; auto.
+  - break_match; auto.
+  - repeat break_match; auto; ext_ev_tac.
+  - ext_ev_tac.
+  - auto.
+Qed.
+
+Lemma ext_step : forall s, ext s -> ext (step s).
+Proof.
+  intros s F. unfold step. destruct (cur s).
+  - destruct (mainp s); [apply ext_set_cur; ext_ev_tac|].
+    unfold idle_if_main. break_match; auto using ext_exec. apply ext_ev; [apply ext_exec; auto|cbn; tauto].
+  - destruct (script (cs s c)); auto using ext_exec.
+  - unfold step_ret. destruct (stack s) as [|[hs|r] rest]; auto.
+    + destruct hs as [|h hs]; [|apply ext_run_c; auto]. destruct (queue s) eqn:Q.
+      * apply ext_ev; [|cbn; tauto]. apply ext_set_cur, ext_set_stack, ext_set_active. exact F.
+      * apply ext_run_c. apply ext_deq; auto.
+    + apply ext_set_cur. ext_ev_tac.
+  - exact F.
+Qed.
+
+
+End Ext.
+
+Lemma log_grows : forall n s, exists evs, log (steps n s) = evs ++ log s.
+Proof.
+  induction n; intros; cbn [steps].
+  - exists []. reflexivity.
+  - destruct (IHn (step s)) as (e1&E1). destruct (ext_step s s) as (e2&E2); [exists []; reflexivity|].
+    exists (e1 ++ e2). rewrite E1, E2, app_assoc. reflexivity.
+Qed.
+
+Lemma enqs_app : forall a b, enqs (a ++ b) = enqs b ++ enqs a.
+Proof. induction a as [|e a IH]; intros; cbn; [rewrite app_nil_r; auto|]. destruct e; auto. rewrite IH, app_assoc. reflexivity. Qed.
+Lemma deqs_app : forall a b, deqs (a ++ b) = deqs b ++ deqs a.
+Proof. induction a as [|e a IH]; intros; cbn; [rewrite app_nil_r; auto|]. destruct e; auto. rewrite IH, app_assoc. reflexivity. Qed.
+
+Lemma fifo_steps : forall n s, fifo s -> fifo (steps n s).
+Proof. intros. apply inv_steps; auto using fifo_step. Qed.
+
+(* continuing any run from s: (queue now ++ whatever is queued later) leaves the queue in exactly that order *)
+Theorem fifo_future : forall n s, fifo s ->
+  exists evs, log (steps n s) = evs ++ log s /\ queue s ++ enqs evs = deqs evs ++ queue (steps n s).
+Proof.
+  intros n s F. destruct (log_grows n s) as (evs&E). exists evs. split; [exact E|].
+  pose proof (fifo_steps n s F) as F'. unfold fifo in *. rewrite E, enqs_app, deqs_app, F in F'.
+  rewrite <- !app_assoc in F'. apply app_inv_head in F'. exact F'.
+Qed.
+
+(* ---------- step-level transcriptions used by C05 ---------- *)
+(* co_await pause(): self to the tail, the head of the queue runs next (self if the queue was empty) *)
+Theorem pause_step : forall s r rest,
+  cur s = CRun r -> r <> 0 -> script (cs s r) = IPause :: rest ->
+  let x := hd r (queue s ++ [r]) in
+  queue (step s) = tl (queue s ++ [r]) /\ cur (step s) = CRun x /\
+  log (step s) = ERun x :: EDeq x :: EEnq r r why_pause :: ESusp r :: log s /\
+  script (cs (step s) r) = rest.
+Proof.
+  intros s r rest C N S x. unfold step. rewrite C, S. cbn [exec].
+  destruct (Nat.eqb_neq r 0) as (_&H). rewrite (H N). cbn.
+  subst x. destruct (queue s ++ [r]) as [|y q] eqn:Q; [destruct (queue s); discriminate|].
+  cbn. unfold upd. rewrite Nat.eqb_refl. cbn. auto.
+Qed.
+
+(* co_await on a non-empty suspend point: the LAST handle runs by symmetric transfer, the others and then the awaiting
+   coroutine are appended to the queue in order *)
+Theorem await_sp_step : forall s me h t,
+  let hs := h :: t in
+  let s' := sp_dispose s me hs true in
+  queue s' = queue s ++ removelast hs ++ [me] /\ cur s' = CRun (last hs 0) /\
+  log s' = ERun (last hs 0) :: EEnq me me why_self :: rev (map (fun c => EEnq c me why_spawait) (removelast hs)) ++ ESusp me :: log s.
+Proof.
+  intros. subst s'. unfold sp_dispose. subst hs. cbn [run_c enq]. cbn. enq_all_rw. cbn.
+  rewrite <- app_assoc. auto.
+Qed.
+
+(* a discarded suspend point in coroutine mode: everything is appended in order, nobody runs, the caller goes on *)
+Theorem discard_sp_step : forall s me hs,
+  active s = true ->
+  let s' := sp_dispose s me hs false in
+  queue s' = queue s ++ hs /\ cur s' = cur s /\ stack s' = stack s /\
+  log s' = rev (map (fun c => EEnq c me why_discard) hs) ++ log s.
+Proof.
+  intros s me hs A s'. subst s'. unfold sp_dispose. destruct hs as [|h t].
+  - cbn. rewrite app_nil_r. auto.
+  - rewrite A. enq_all_rw. auto.
+Qed.
+
+(* a discarded suspend point in normal mode: queue installed, handles resumed one by one in order, then the flush *)
+Theorem discard_sp_normal : forall s me h t,
+  active s = false ->
+  let s' := sp_dispose s me (h :: t) false in
+  active s' = true /\ stack s' = KInst (h :: t) :: stack s /\ cur s' = CRet /\ log s' = log s /\
+  cur (step s') = CRun h /\ stack (step s') = KInst t :: stack s.
+Proof. intros s me h t A s'. subst s'. unfold sp_dispose. rewrite A. cbn. repeat split; reflexivity. Qed.
